@@ -440,8 +440,11 @@ def full_elements(cfg, env, tag):
     p = cfg.p
     g = rng(env, "full:%s" % tag)
     alpha = [0, 1, 2, p - 1, p - 2, (p - 1) // 2, (p + 1) // 2, g.randrange(p), g.randrange(p)]
+    # machine-word structure: single high words, zero low / middle words, all-ones words
+    limbs = [2 ** 64, 2 ** 128 - 1, (2 ** 64 - 1) << 64, 2 ** 192 + 1, p - 2 ** 128, (p >> 64) << 64]
     if cfg.mc is None:
-        return alpha
+        return alpha + limbs
+    alpha = alpha[:7] + limbs[:3] + alpha[7:]
     k = len(cfg.mc)
     if k == 2:
         return [(x, y) for x in alpha for y in alpha]
